@@ -30,6 +30,34 @@ def arm_watchdog(seconds):
     threading.Thread(target=sleeper, daemon=True).start()
 
 
+def oracle_only_pass(mod, ctx):
+    """The machinery stopped before the oracle had its turn (typically: the changed implementation produced a value a
+    Coq-side stage could not digest).  The search for a concrete failing input must still happen: run the check
+    again with every Coq-side helper stubbed out, and keep only what the oracle finds on the implementation."""
+    from harness import numeric
+    saved = (numeric.regen, numeric.regen_ast, numeric.selfcheck, numeric.coq_point_check, common.coq_eval, common.Ctx.build_props)
+    ctx2 = common.Ctx(ctx.pid, ctx.tier, ctx.seed)
+    try:
+        numeric.regen = lambda c, kernel: (None, None)
+        numeric.regen_ast = lambda c, kernel, what, optional=False: (None, None)
+        numeric.selfcheck = lambda *a, **k: None
+        numeric.coq_point_check = lambda *a, **k: True
+        common.coq_eval = lambda name, text, timeout=600: (False, "skipped: oracle-only pass after a machinery failure")
+        common.Ctx.build_props = lambda self, *a, **k: False
+        try:
+            mod.run(ctx2)
+        except BudgetExceeded:
+            raise
+        except Exception:
+            pass
+    finally:
+        (numeric.regen, numeric.regen_ast, numeric.selfcheck, numeric.coq_point_check, common.coq_eval, common.Ctx.build_props) = saved
+    ctx.violations += [v for v in ctx2.violations if v not in ctx.violations][:20 - len(ctx.violations)]
+    ctx.known_hits += [k for k in ctx2.known_hits if k not in ctx.known_hits]
+    ctx.evaluations += ctx2.evaluations
+    ctx.notes["oracle_only_pass"] = "run after a machinery failure; %d failing inputs found" % len(ctx2.violations)
+
+
 def generic_replay(mod, rp):
     """Checks without their own replay: every input is derived from (seed, tier) by one PRNG, so running the check
     again with the recorded seed and tier regenerates exactly the recorded inputs; report which of the recorded
@@ -93,6 +121,7 @@ def main():
     except Exception as e:  # machinery failure is a broken tie, never a silent pass
         ctx.proof_failures.append({"theorem": "(check machinery)", "error": "%s: %s" % (type(e).__name__, e),
                                    "trace": traceback.format_exc()[-1500:]})
+        oracle_only_pass(mod, ctx)
     common.write_evidence(ctx, getattr(mod, "LEVEL", "proof"))
     sys.exit(common.verdict(ctx))
 
